@@ -248,6 +248,29 @@ def test_round1():
     return n, bad
 
 
+def test_strip(rnd):
+    """Utf8Str.strip/lstrip/rstrip on constant-valued proxies against str (all whitespace characters str.isspace knows)."""
+    ws = [chr(c) for c in range(0x3100) if chr(c).isspace()]
+    others = ["a", "Z", "0", "-", "\u00e9", "\u4e2d", "\U0001f600", "\u2007x", "\u00a1", "\u1681", "\u200b", "\u3001"]
+    n = bad = 0
+    ctx = core.SymCtx()
+    core.CUR = ctx
+    try:
+        for _ in range(150):
+            parts = [rnd.choice(ws) for _ in range(rnd.randrange(0, 3))] + [rnd.choice(others + ws) for _ in range(rnd.randrange(0, 4))] \
+                + [rnd.choice(ws) for _ in range(rnd.randrange(0, 3))]
+            t = "".join(parts)
+            sym = Utf8Str([const_int(b) for b in t.encode("utf-8")])
+            for meth in ("strip", "lstrip", "rstrip"):
+                n += 1
+                got = deep_concrete(ctx, getattr(sym, meth)())
+                if got != getattr(t, meth)():
+                    bad += 1
+    finally:
+        core.CUR = None
+    return n, bad
+
+
 def run_all(seed=0, repo_root="/repo"):
     """Returns dict of results; key 'ok' False if any mismatch. Shims must not be installed."""
     rnd = random.Random(seed)
@@ -261,6 +284,7 @@ def run_all(seed=0, repo_root="/repo"):
         shims.unpatch_enum()
     res["utf8"] = utf8.selftest(samples=200, seed=seed)
     res["round1"] = test_round1()
+    res["strip"] = test_strip(rnd)
     vectors = harvest_vectors(repo_root)
     # plain re-encodes for step (d)
     _REENC.clear()
